@@ -63,6 +63,7 @@ class Credit(object):
         self.retry_of, self.delay = retry_of, delay
         self.consumed = False
         self.barrier = None
+        self.branches = []
         self.void = False
 
     def __repr__(self):
@@ -417,12 +418,14 @@ class Ledger(object):
             # satisfied but not yet started: the arriving branch is still folded into its context
             b["credit"].ref = self.merge_ctx(b["credit"].ref, out)
             b["credit"].parents.append(x.xid)
+            b["credit"].branches.append(out)
             return
         if not b["fired"] and len(b["srcs"]) >= self.req[join]:
             ref = None
             for (_, _, _, o) in b["arrivals"]:
                 ref = o if ref is None else self.merge_ctx(ref, o)
             c = Credit(join, x.route, "barrier", ref, [a[1] for a in b["arrivals"]])
+            c.branches = [a[3] for a in b["arrivals"]]
             c.barrier = b
             b["credit"] = c
             b["fired"] = True
